@@ -329,6 +329,17 @@ const TOT_NUM_ACCUM_BITS: u32 = 24;
 /// Note that the lookup table size MUST be a power of 2
 const NUM_LUT_INDEX_BITS: u32 = ilog_2(lookup_tables::ADSR_CURVE_LUT_SIZE);
 
+/// Verification hook: the constants of this module as compiled (`f32` values as bit patterns)
+#[cfg(feature = "verif-hooks")]
+pub fn verif_consts() -> [(&'static str, u32); 4] {
+    [
+        ("MIN_TIME_PERIOD_SEC", MIN_TIME_PERIOD_SEC.to_bits()),
+        ("MAX_TIME_PERIOD_SEC", MAX_TIME_PERIOD_SEC.to_bits()),
+        ("ADSR_TOT_NUM_ACCUM_BITS", TOT_NUM_ACCUM_BITS),
+        ("ADSR_NUM_LUT_INDEX_BITS", NUM_LUT_INDEX_BITS),
+    ]
+}
+
 #[cfg(test)]
 mod tests {
     use super::*;
